@@ -10,20 +10,22 @@ vars == <<gen, phase>>
 Ds == DsOfSmall(gen)
 Op == gen.opt
 Axes == <<"no", "time", "leadtime", "location">>
-AllMetrics == DetMetrics \cup CatMetrics \cup {"obs", "fcst"}
+\* (with a dividing climatology the values are quarter-integers; the heavier formulas would overflow TLC's 32-bit integers)
+AllMetrics == IF Family = "C04Clim" THEN {"mae", "bias", "rmse", "ef", "ets", "hit", "far", "baserate", "pc", "n", "a", "obs", "fcst"}
+              ELSE DetMetrics \cup CatMetrics \cup {"obs", "fcst"}
 Usable(x) == ~EmptySelection(DsOfSmall(x), x.opt) /\ SomeObs(DsOfSmall(x))
 
 Emit ==
   LET X == Context(Ds, Op) IN
   PrintT(ToJson([fam |-> Family,
-                 inputs |-> [j \in DOMAIN Ds.inputs |-> InputJson(Ds.inputs[j])], hasClim |-> FALSE, clim |-> InputJson(Ds.clim),
-                 climType |-> "subtract", opts |-> OptJson(Op),
+                 inputs |-> [j \in DOMAIN Ds.inputs |-> InputJson(Ds.inputs[j])], hasClim |-> Ds.hasClim, clim |-> InputJson(Ds.clim),
+                 climType |-> Ds.climType, opts |-> OptJson(Op),
                  times |-> X.T, leads |-> X.L, locs |-> X.S,
                  cfg |-> [agg |-> DefaultCfg.agg, bt |-> DefaultCfg.bt, t |-> J(DefaultCfg.t), u |-> J(DefaultCfg.u)],
                  scores |-> [m \in AllMetrics |-> [a \in DOMAIN Axes |-> ScoreMatrix(X, m, Axes[a], DefaultCfg)]],
                  \* the two metrics with a recorded C05 finding: what the code computes instead (KnownFindings.tla), so that the
                  \* checks of OTHER properties built on this module can still hold them to "same cases, missing never counted"
-                 impl |-> [m \in {"alphaindex", "leps"} |-> [a \in DOMAIN Axes |-> [k \in 1..NumSlices(X, Axes[a]) |-> [i \in 1..X.n |->
+                 impl |-> [m \in {"alphaindex", "leps"} \cap AllMetrics |-> [a \in DOMAIN Axes |-> [k \in 1..NumSlices(X, Axes[a]) |-> [i \in 1..X.n |->
                             IF m = "leps" THEN Leps_AsImplemented(PairsOf(X, i, Axes[a], k)) ELSE Alphaindex_AsImplemented(PairsOf(X, i, Axes[a], k))]]]],
                  counts |-> [a \in DOMAIN Axes |-> [k \in 1..NumSlices(X, Axes[a]) |-> [i \in 1..X.n |-> Len(PairsOf(X, i, Axes[a], k))]]]]))
 Init == gen \in {x \in Universe(0) : Usable(x)} /\ phase = "dataset"
